@@ -85,6 +85,8 @@ THEOREMS = [
     "Verif.C11.hydro_spectrum_form",
     "Verif.C11.psdOr_hydro_noFilter",
     "Verif.C11.rational_spectrum_recovery_unique",
+    "Verif.C11.psdOr_fixed_diode_shapes",
+    "Verif.C11.fit_recovery_in_conditioning_box",
 ]
 RULE = (
     "corpus (8 representative + the open finding F-C11-1) + exhaustive option matrix (hydro x axial x distance{None, at the "
@@ -772,11 +774,12 @@ def drive_slice(c):
 
     x = drive_signal(c)
     n = len(x)
-    w = scipy.signal.windows.gaussian(M=n, std=n / 10, sym=False)
+    w = scipy.signal.windows.gaussian(M=n, std=n / c.get("window_factor", 10), sym=False)
     spec = np.abs(np.fft.rfft(w * (x - np.mean(x))))
     freq = np.fft.rfftfreq(n, 1.0 / c["rate"])
     df = c["rate"] / n
-    keep = np.nonzero(np.logical_and(freq > c["guess"] - 5.0 - 3.5 * df, freq < c["guess"] + 5.0 + 3.5 * df))[0]
+    fsr = c.get("f_search", 5.0)
+    keep = np.nonzero(np.logical_and(freq > c["guess"] - fsr - 3.5 * df, freq < c["guess"] + fsr + 3.5 * df))[0]
     if len(keep) == 0:  # search range beyond the spectrum: the last bins (none of them inside the range)
         keep = np.arange(max(0, len(freq) - 4), len(freq))
     return {
@@ -802,12 +805,16 @@ def run_drive(c):
         out["direct"] = None
     else:
         try:
-            amp, freq, amp_std = estimate(c["rate"], x, c["guess"])
+            kw = {k: c[k] for k in ("window_factor", "f_search") if k in c}  # rarely used options (scope cases only)
+            amp, freq, amp_std = estimate(c["rate"], x, c["guess"], **kw)
             out["direct"] = {"amp": float(amp), "freq": float(freq), "amp_std": float(amp_std)}
         except Exception as e:  # noqa: BLE001
             out["direct"] = {"error": errname(e)}
     # public tie: the constructor of lk.ActiveCalibrationModel measures the stage signal with the same estimator and
     # publishes driving_amplitude [m] / driving_frequency [Hz]
+    if "window_factor" in c or "f_search" in c:
+        out["public"] = None  # the constructor of ActiveCalibrationModel has no such options
+        return out
     try:
         m = _pub().ActiveCalibrationModel(x, x, c["rate"], bead_diameter=1.0, driving_frequency_guess=c["guess"])
         out["public"] = {"amp": float(m.driving_amplitude) * 1e6, "freq": float(m.driving_frequency)}
@@ -909,7 +916,7 @@ def ops(case):
         if sl is None:
             return ["c11.drivefailed"]
         return [
-            f"c11.drive {fl(sl['freqs'])} {fl(sl['mags'])} {enc_float(case['guess'])} {enc_float(5.0)} "
+            f"c11.drive {fl(sl['freqs'])} {fl(sl['mags'])} {enc_float(case['guess'])} {enc_float(case.get('f_search', 5.0))} "
             f"{enc_float(2.0 / case['rate'])} {enc_float(float(case['n']))} {enc_float(sl['var'])} {enc_float(sl['sw'])} "
             f"{enc_float(sl['sw2'])}"
         ]
@@ -1404,8 +1411,8 @@ def oracle_drive(c):
         # the property text does determine: an answer lies inside the search range the caller asked for
         for route in ("direct", "public"):
             r = both[route]
-            if r is not None and "error" not in r and not abs(r["freq"] - c["guess"]) <= 5.0 * (1 + 1e-12):
-                return f"driving-peak: frequency {r['freq']} returned outside the search range {c['guess']} +- 5 Hz"
+            if r is not None and "error" not in r and not abs(r["freq"] - c["guess"]) <= c.get("f_search", 5.0) * (1 + 1e-12):
+                return f"driving-peak: frequency {r['freq']} returned outside the search range {c['guess']} +- {c.get('f_search', 5.0)} Hz"
         return None
     for route in ("direct", "public"):
         r = both[route]
@@ -2017,6 +2024,25 @@ def drive_scope():
                     "tones": [list(t) for t in tones],
                     "subseed": 1,
                 }
+    # rarely used options of the estimator: f_search (width of the search range), window_factor (width of the window)
+    for f_search, wf, off in itertools.product((2.0, 9.5), (6, 10, 14), (0.0, 1.7, -2.6, 8.0)):
+        yield {
+            "stream": "scope-drive",
+            "op": "drive",
+            "scope": True,
+            "rate": rate,
+            "n": n,
+            "f": 21.3,
+            "amp": 0.8,
+            "phase": 0.3,
+            "offset": 1.1,
+            "noise": 0.0,
+            "guess": 21.3 + off,
+            "tones": [],
+            "subseed": 1,
+            "f_search": f_search,
+            "window_factor": wf,
+        }
 
 
 FIXED_PATTERNS = [None, [9000.0, None], [None, 0.25], [12000.0, 0.5]]
